@@ -899,19 +899,30 @@ theorem ref_applyFn_arity (k cid : Nat) (vs' : List Val) (rs : Ref.St) (c : Ref.
   rw [Ref.applyFn]
   simp only [hc, ref_bindParams_none _ _ _ hne]
 
+/-- as `SimF` for one instruction that stands at `s0` and whose execution goes on from `s` (the callee of a call
+evaluated: `s0 = s` for a symbol) -/
+def SimVia (s0 : St) (n : Nat) (m : Nat → Nat) (s : St) (rs : Ref.St) (env : Nat) (res : Ref.R Val) : Prop :=
+  match res with
+  | .ok v' rs' => ∃ s' m' v, ReachX s0 s' ∧ Lands n v s s' ∧ v' = trf m' v ∧ RelF m' s' rs' env
+      ∧ MExt s m m' ∧ RExt rs rs' ∧ FrameF s s' ∧ VOk m' s' rs' v
+  | .err rs' => FailsX s0 rs'.trace
+  | .timeout => True
+  | .brk _ _ => False
+  | .cont _ _ => False
+
 /-- a call whose callee symbol denotes a closure object -/
-theorem simF_call_fn {k : Nat} (hA : FClaimA (k + 1)) (hU : FClaimU (k + 1)) {h : String} {args : List Expr}
-    (hargs : FaList args = true) {m : Nat → Nat} {s : St} {rs : Ref.St} {env : Nat} {pre post : List Instr} {i vid : Nat}
-    (hrel : RelF m s rs env) (hseg : Seg s pre [.callExpr (.sym h) args] post)
-    (hl : lexLookup s h = some (i, .fn vid)) (hg : GoodFn m s rs vid) :
-    SimF [.callExpr (.sym h) args] m s rs env (refCall k (.fn (m vid)) args env rs) := by
+theorem simF_call_fn {k : Nat} (hA : FClaimA (k + 1)) (hU : FClaimU (k + 1)) {args : List Expr}
+    (hargs : FaList args = true) {m : Nat → Nat} {s : St} {rs : Ref.St} {env : Nat} {pre post : List Instr} {vid : Nat}
+    (hrel : RelF m s rs env) {ins : Instr} {s0 : St} {M0 : Nat} (hat : At s0 pre ins post)
+    (hex : ∀ F, M0 ≤ F → (exec (F + 3) ins).run s0 = (callResolved (F + 2) (.fn vid) args).run s) (hg : GoodFn m s rs vid) :
+    SimVia s0 1 m s rs env (refCall k (.fn (m vid)) args env rs) := by
   obtain ⟨c, hc1, hrest, hnd, hokp, hbody, hparams, hnargs, hvar, huser, _, _, _⟩ := hg.clo
   rw [refCall_fn k (m vid) args env rs c hc1]
   have hprep := hA args hargs (some (fnOf s vid)) (lazyAtC c) (isLazyVM_clo huser hparams hnargs hvar) 0 m s rs env hrel
-  have hexec : ∀ F, (exec (F + 3) (.callExpr (.sym h) args)).run s
+  have hexec : ∀ F, M0 ≤ F → (exec (F + 3) ins).run s0
       = guardedRun s.data.length
           ((prepareArgs (F + 1) (some (fnOf s vid)) 0 args >>= fun _ => callFunction vid args.length : M Unit).run s) :=
-    fun F => by rw [exec_callExpr_sym F h args s i _ hl, run_callResolved_fn]
+    fun F hF => by rw [hex F hF, run_callResolved_fn]
   obtain ⟨b0, hch, hfc⟩ := hrel.ctx
   have hcurlt := hfc.lt
   cases h1 : Ref.evalArgs (k + 1) args 0 (lazyAtC c) env rs with
@@ -928,14 +939,14 @@ theorem simF_call_fn {k : Nat} (hA : FClaimA (k + 1)) (hU : FClaimU (k + 1)) {h 
     by_cases har : arOk c.rest c.ps.length vs.length
     · -- control enters the callee
       rw [if_pos har] at hcf
-      have hx : ∀ f, M + 3 ≤ f → (exec (f + 1) (.callExpr (.sym h) args)).run s
+      have hx : ∀ f, M + M0 + 3 ≤ f → (exec (f + 1) ins).run s0
           = (.ok (), enteredA s1 vid c.rest c.ps.length vs s.data) := by
         intro f hf
         obtain ⟨G, rfl⟩ : ∃ G, f = G + 2 := ⟨f - 2, by omega⟩
-        rw [hexec G, run_bind, hM (G + 1) (by omega)]
+        rw [hexec G (by omega), run_bind, hM (G + 1) (by omega)]
         simp only
         rw [hlen, hcf]; rfl
-      have r1 : ReachX s (enteredA s1 vid c.rest c.ps.length vs s.data) := ReachX.step hseg.head (M + 3) hx
+      have r1 : ReachX s0 (enteredA s1 vid c.rest c.ps.length vs s.data) := ReachX.step hat (M + M0 + 3) hx
       have hu := hU m1 s1 rs1 env vid c vs s.data s1.curfunc rel1 hg1 (by rw [hmv]; exact ext1.2 _ _ hc1) hd1 hcl har
       rw [hmv, ← hvs] at hu
       cases h2 : Ref.applyFn (k + 1) (.fn (m vid)) vs' rs1 with
@@ -956,20 +967,20 @@ theorem simF_call_fn {k : Nat} (hA : FClaimA (k + 1)) (hU : FClaimU (k + 1)) {h 
       have hne : ¬ arOk c.rest c.ps.length vs'.length := by
         rw [hvs, List.length_map]; exact har
       rw [ref_applyFn_arity k (m vid) vs' rs1 c (ext1.2 _ _ hc1) hne]
-      refine FailsX.step hseg.head (M + 3) (fun f hf => ?_)
+      refine FailsX.step hat (M + M0 + 3) (fun f hf => ?_)
       obtain ⟨G, rfl⟩ : ∃ G, f = G + 2 := ⟨f - 2, by omega⟩
       refine ⟨{ s1 with data := truncate s1.data s.data.length }, ?_, rel1.trace⟩
-      rw [hexec G, run_bind, hM (G + 1) (by omega)]
+      rw [hexec G (by omega), run_bind, hM (G + 1) (by omega)]
       simp only
       rw [hlen, hcf]; rfl
   | err rs1 =>
     rw [h1] at hprep
     obtain ⟨M, hM⟩ := hprep
     simp only
-    refine FailsX.step hseg.head (M + 2) (fun f hf => ?_)
+    refine FailsX.step hat (M + M0 + 2) (fun f hf => ?_)
     obtain ⟨F, rfl⟩ : ∃ F, f = F + 2 := ⟨f - 2, by omega⟩
     obtain ⟨se, hse, htr⟩ := hM (F + 1) (by omega)
-    exact ⟨{ se with data := truncate se.data s.data.length }, by rw [hexec F, run_bind, hse]; rfl, htr⟩
+    exact ⟨{ se with data := truncate se.data s.data.length }, by rw [hexec F (by omega), run_bind, hse]; rfl, htr⟩
   | timeout => trivial
   | brk l rs1 => rw [h1] at hprep; exact hprep.elim
   | cont l rs1 => rw [h1] at hprep; exact hprep.elim
@@ -978,17 +989,17 @@ theorem headD_map_tr (m : Nat → Nat) (vs : List Val) : (vs.map (trf m)).headD 
   cases vs <;> rfl
 
 /-- a call whose callee symbol denotes a first-order builtin -/
-theorem simF_call_builtin {k : Nat} (hA : FClaimA (k + 1)) {h name : String} (hn : name ∈ foBuiltins) {args : List Expr}
-    (hargs : FaList args = true) {m : Nat → Nat} {s : St} {rs : Ref.St} {env : Nat} {pre post : List Instr} {i : Nat}
-    (hrel : RelF m s rs env) (hseg : Seg s pre [.callExpr (.sym h) args] post)
-    (hl : lexLookup s h = some (i, .builtin name)) :
-    SimF [.callExpr (.sym h) args] m s rs env (refCall k (.builtin name) args env rs) := by
+theorem simF_call_builtin {k : Nat} (hA : FClaimA (k + 1)) {name : String} (hn : name ∈ foBuiltins) {args : List Expr}
+    (hargs : FaList args = true) {m : Nat → Nat} {s : St} {rs : Ref.St} {env : Nat} {pre post : List Instr}
+    (hrel : RelF m s rs env) {ins : Instr} {s0 : St} {M0 : Nat} (hat : At s0 pre ins post)
+    (hex : ∀ F, M0 ≤ F → (exec (F + 3) ins).run s0 = (callResolved (F + 2) (.builtin name) args).run s) :
+    SimVia s0 1 m s rs env (refCall k (.builtin name) args env rs) := by
   rw [refCall_builtin]
   have hprep := hA args hargs none (fun _ => false) (fun _ => rfl) 0 m s rs env hrel
-  have hexec : ∀ F, (exec (F + 3) (.callExpr (.sym h) args)).run s
+  have hexec : ∀ F, M0 ≤ F → (exec (F + 3) ins).run s0
       = guardedRun s.data.length
           ((prepareArgs (F + 1) none 0 args >>= fun _ => callUser (F + 1) name args.length : M Unit).run s) :=
-    fun F => by rw [exec_callExpr_sym F h args s i _ hl, run_callResolved_builtin]
+    fun F hF => by rw [hex F hF, run_callResolved_builtin]
   obtain ⟨b0, hch, hfc⟩ := hrel.ctx
   have hcurlt := hfc.lt
   cases h1 : Ref.evalArgs (k + 1) args 0 (fun _ => false) env rs with
@@ -1008,13 +1019,13 @@ theorem simF_call_builtin {k : Nat} (hA : FClaimA (k + 1)) {h name : String} (hn
         s3.loops = s1.loops → s3.lazies = s1.lazies → rsF.thunks = rs1.thunks →
         rsF.frames = rs1.frames → rsF.clos = rs1.clos → rsF.heap = trHeap m1 id id s3.heap → s3.trace = rsF.trace →
         HOk m1 s1 rs1 s3.heap → VOk m1 s1 rs1 v →
-        SimF [.callExpr (.sym h) args] m s rs env (.ok (trf m1 v) rsF) := by
+        SimVia s0 1 m s rs env (.ok (trf m1 v) rsF) := by
       intro v s3 rsF hres hsc hlin hfns hsus hlps hlzs hths hfr hcl hheap htr hhok hvok
       let sF : St := { s3 with data := some v :: s.data, addr := s1.addr, curfunc := s1.curfunc, pc := s1.pc + 1 }
-      have hx : ∀ f, M + 3 ≤ f → (exec (f + 1) (.callExpr (.sym h) args)).run s = (.ok (), sF) := by
+      have hx : ∀ f, M + M0 + 3 ≤ f → (exec (f + 1) ins).run s0 = (.ok (), sF) := by
         intro f hf
         obtain ⟨G, rfl⟩ : ∃ G, f = G + 3 := ⟨f - 3, by omega⟩
-        rw [hexec (G + 1), run_bind, hM (G + 1 + 1) (by omega)]
+        rw [hexec (G + 1) (by omega), run_bind, hM (G + 1 + 1) (by omega)]
         simp only
         rw [hlen, hcu G, hres]; rfl
       have hrelF : RelF m1 sF rsF env := rel1.of_same hsc hlin hfns rfl hfr hcl hheap htr hhok (LoopsExt.of_eq hlps) hlzs hths
@@ -1026,7 +1037,7 @@ theorem simF_call_builtin {k : Nat} (hA : FClaimA (k + 1)) {h name : String} (hn
         by show s1.loops.length ≤ s3.loops.length; rw [hlps]; exact Nat.le_refl _,
         fun id _ => by show s3.loops.getD id {} = _; rw [hlps]⟩
       have hrext : RExt rs1 rsF := ⟨fun i fr hf => ⟨fr, by rw [hfr]; exact hf, rfl⟩, fun i c hc => by rw [hcl]; exact hc⟩
-      refine ⟨sF, m1, v, ReachX.step hseg.head (M + 3) hx, ⟨hfnF, by show s1.pc + 1 = _; rw [hp1]; simp, rfl⟩, rfl, hrelF,
+      refine ⟨sF, m1, v, ReachX.step hat (M + M0 + 3) hx, ⟨hfnF, by show s1.pc + 1 = _; rw [hp1]; simp, rfl⟩, rfl, hrelF,
         hm1, ext1.trans hrext,
         fr1.trans ⟨hfrF, by show s1.scopes.length ≤ s3.scopes.length; rw [hsc]; exact Nat.le_refl _,
           fun i _ => by unfold isFnScope scopeOf; show (s3.scopes.getD i {}).isFunction = _; rw [hsc]⟩,
@@ -1067,94 +1078,117 @@ theorem simF_call_builtin {k : Nat} (hA : FClaimA (k + 1)) {h name : String} (hn
           show (match prim name vs s1.heap with | some (v, h) => _ | none => _) = _
           rw [hp]
         simp only [Option.map_none]
-        refine FailsX.step hseg.head (M + 3) (fun f hf => ?_)
+        refine FailsX.step hat (M + M0 + 3) (fun f hf => ?_)
         obtain ⟨G, rfl⟩ : ∃ G, f = G + 3 := ⟨f - 3, by omega⟩
-        refine ⟨_, by rw [hexec (G + 1), run_bind, hM (G + 1 + 1) (by omega)]; simp only; rw [hlen, hcu G, hfo]; rfl, ?_⟩
+        refine ⟨_, by rw [hexec (G + 1) (by omega), run_bind, hM (G + 1 + 1) (by omega)]; simp only; rw [hlen, hcu G, hfo]; rfl, ?_⟩
         show ((restore (capPopped s1 s.data)).run (inBuiltin s1 s.data)).2.trace = _
         rw [restore_trace]; exact rel1.trace
   | err rs1 =>
     rw [h1] at hprep
     obtain ⟨M, hM⟩ := hprep
     simp only
-    refine FailsX.step hseg.head (M + 2) (fun f hf => ?_)
+    refine FailsX.step hat (M + M0 + 2) (fun f hf => ?_)
     obtain ⟨F, rfl⟩ : ∃ F, f = F + 2 := ⟨f - 2, by omega⟩
     obtain ⟨se, hse, htr⟩ := hM (F + 1) (by omega)
-    exact ⟨{ se with data := truncate se.data s.data.length }, by rw [hexec F, run_bind, hse]; rfl, htr⟩
+    exact ⟨{ se with data := truncate se.data s.data.length }, by rw [hexec F (by omega), run_bind, hse]; rfl, htr⟩
   | timeout => trivial
   | brk l rs1 => rw [h1] at hprep; exact hprep.elim
   | cont l rs1 => rw [h1] at hprep; exact hprep.elim
 
 /-- an array in callee position: the operands are evaluated, then the call fails -/
-theorem simF_call_arr {k : Nat} (hA : FClaimA (k + 1)) {h : String} {args : List Expr}
-    (hargs : FaList args = true) {m : Nat → Nat} {s : St} {rs : Ref.St} {env : Nat} {pre post : List Instr} {i r : Nat}
-    (hrel : RelF m s rs env) (hseg : Seg s pre [.callExpr (.sym h) args] post)
-    (hl : lexLookup s h = some (i, .arr r)) :
-    SimF [.callExpr (.sym h) args] m s rs env (refCall k (.arr r) args env rs) := by
+theorem simF_call_arr {k : Nat} (hA : FClaimA (k + 1)) {args : List Expr}
+    (hargs : FaList args = true) {m : Nat → Nat} {s : St} {rs : Ref.St} {env : Nat} {pre post : List Instr} {r : Nat}
+    (hrel : RelF m s rs env) {ins : Instr} {s0 : St} {M0 : Nat} (hat : At s0 pre ins post)
+    (hex : ∀ F, M0 ≤ F → (exec (F + 3) ins).run s0 = (callResolved (F + 2) (.arr r) args).run s) :
+    SimVia s0 1 m s rs env (refCall k (.arr r) args env rs) := by
   rw [refCall_arr]
   have hprep := hA args hargs none (fun _ => false) (fun _ => rfl) 0 m s rs env hrel
-  have hexec : ∀ F, (exec (F + 3) (.callExpr (.sym h) args)).run s
+  have hexec : ∀ F, M0 ≤ F → (exec (F + 3) ins).run s0
       = guardedRun s.data.length ((prepareArgs (F + 1) none 0 args >>= fun _ => (err : M Unit) : M Unit).run s) :=
-    fun F => by rw [exec_callExpr_sym F h args s i _ hl, run_callResolved_arr]
+    fun F hF => by rw [hex F hF, run_callResolved_arr]
   cases h1 : Ref.evalArgs (k + 1) args 0 (fun _ => false) env rs with
   | ok vs' rs1 =>
     rw [h1] at hprep
     obtain ⟨M, s1, m1, vs, hM, hd1, hp1, hvs, rel1, hm1, ext1, fr1, hclvs⟩ := hprep
     simp only
-    refine FailsX.step hseg.head (M + 2) (fun f hf => ?_)
+    refine FailsX.step hat (M + M0 + 2) (fun f hf => ?_)
     obtain ⟨F, rfl⟩ : ∃ F, f = F + 2 := ⟨f - 2, by omega⟩
     exact ⟨{ s1 with data := truncate s1.data s.data.length },
-      by rw [hexec F, run_bind, hM (F + 1) (by omega)]; rfl, rel1.trace⟩
+      by rw [hexec F (by omega), run_bind, hM (F + 1) (by omega)]; rfl, rel1.trace⟩
   | err rs1 =>
     rw [h1] at hprep
     obtain ⟨M, hM⟩ := hprep
     simp only
-    refine FailsX.step hseg.head (M + 2) (fun f hf => ?_)
+    refine FailsX.step hat (M + M0 + 2) (fun f hf => ?_)
     obtain ⟨F, rfl⟩ : ∃ F, f = F + 2 := ⟨f - 2, by omega⟩
     obtain ⟨se, hse, htr⟩ := hM (F + 1) (by omega)
-    exact ⟨{ se with data := truncate se.data s.data.length }, by rw [hexec F, run_bind, hse]; rfl, htr⟩
+    exact ⟨{ se with data := truncate se.data s.data.length }, by rw [hexec F (by omega), run_bind, hse]; rfl, htr⟩
   | timeout => trivial
   | brk l rs1 => rw [h1] at hprep; exact hprep.elim
   | cont l rs1 => rw [h1] at hprep; exact hprep.elim
 
 /-- the callee symbol denotes something that is no function: the value itself without operands,
 an error with operands -/
-theorem simF_call_other {k : Nat} {h : String} {args : List Expr} {m : Nat → Nat} {s : St} {rs : Ref.St} {env : Nat}
-    {pre post : List Instr} {i : Nat} {fv : Val} (hrel : RelF m s rs env)
-    (hseg : Seg s pre [.callExpr (.sym h) args] post) (hl : lexLookup s h = some (i, fv)) (hv : VOk m s rs fv)
+theorem simF_call_other {k : Nat} {args : List Expr} {m : Nat → Nat} {s : St} {rs : Ref.St} {env : Nat}
+    {pre post : List Instr} {fv : Val} (hrel : RelF m s rs env)
+    {ins : Instr} {s0 : St} {M0 : Nat} (hat : At s0 pre ins post)
+    (hex : ∀ F, M0 ≤ F → (exec (F + 3) ins).run s0 = (callResolved (F + 2) fv args).run s) (hv : VOk m s rs fv)
     (h1 : ∀ id, fv ≠ .fn id) (h2 : ∀ n, fv ≠ .builtin n) (h3 : ∀ r, fv ≠ .arr r) :
-    SimF [.callExpr (.sym h) args] m s rs env (refCall k (trf m fv) args env rs) := by
+    SimVia s0 1 m s rs env (refCall k (trf m fv) args env rs) := by
   have h1' : ∀ id, trf m fv ≠ .fn id := fun id e => by cases fv <;> simp_all [tr]
   have h2' : ∀ n, trf m fv ≠ .builtin n := fun n e => by cases fv <;> simp_all [tr]
   have h3' : ∀ r, trf m fv ≠ .arr r := fun r e => by cases fv <;> simp_all [tr]
   rw [refCall_other k _ args env rs h1' h2' h3']
-  have hexec : ∀ F, (exec (F + 3) (.callExpr (.sym h) args)).run s
+  have hexec : ∀ F, M0 ≤ F → (exec (F + 3) ins).run s0
       = if args.isEmpty then (.ok (), s.jmp (s.pc + 1) (some fv :: s.data)) else (.error .err, s) :=
-    fun F => by rw [exec_callExpr_sym F h args s i _ hl, run_callResolved_other _ _ _ _ h1 h2 h3]
+    fun F hF => by rw [hex F hF, run_callResolved_other _ _ _ _ h1 h2 h3]
   by_cases he : args.isEmpty = true
   · simp only [he, if_true] at hexec ⊢
-    refine ⟨s.jmp (s.pc + 1) (some fv :: s.data), m, fv, ReachX.step hseg.head 2 (fun f hf => ?_), ⟨rfl, by simp, rfl⟩,
+    refine ⟨s.jmp (s.pc + 1) (some fv :: s.data), m, fv, ReachX.step hat (M0 + 2) (fun f hf => ?_), ⟨rfl, by simp, rfl⟩,
       rfl, hrel.jmp _ _, MExt.refl s m, RExt.refl rs, FrameF.jmp _ _ _,
       VOk.ext hv (FrameF.jmp _ _ _) (RExt.refl rs) (MExt.refl s m)⟩
     obtain ⟨F, rfl⟩ : ∃ F, f = F + 2 := ⟨f - 2, by omega⟩
-    exact hexec F
+    exact hexec F (by omega)
   · simp only [he, Bool.false_eq_true, if_false] at hexec ⊢
-    refine FailsX.step hseg.head 2 (fun f hf => ?_)
+    refine FailsX.step hat (M0 + 2) (fun f hf => ?_)
     obtain ⟨F, rfl⟩ : ∃ F, f = F + 2 := ⟨f - 2, by omega⟩
-    exact ⟨s, hexec F, hrel.trace⟩
+    exact ⟨s, hexec F (by omega), hrel.trace⟩
 
 /-- a call whose callee symbol denotes the Go builtin `name` (for `force`, `apply`, `map`: proved in `SimF2Lazy.lean`,
 `SimF2Apply.lean` from the claims at lower fuel) -/
 def FClaimH (k : Nat) (name : String) : Prop :=
-  ∀ (h : String) (args : List Expr), FaList args = true → ∀ (m : Nat → Nat) (s : St) (rs : Ref.St) (env : Nat)
-    (pre post : List Instr) (i : Nat), RelF m s rs env → Seg s pre [.callExpr (.sym h) args] post →
-    lexLookup s h = some (i, .builtin name) →
-    SimF [.callExpr (.sym h) args] m s rs env (refCall k (.builtin name) args env rs)
+  ∀ (args : List Expr), FaList args = true → ∀ (m : Nat → Nat) (s : St) (rs : Ref.St) (env : Nat)
+    (pre post : List Instr) (ins : Instr) (s0 : St) (M0 : Nat), RelF m s rs env → At s0 pre ins post →
+    (∀ F, M0 ≤ F → (exec (F + 3) ins).run s0 = (callResolved (F + 2) (.builtin name) args).run s) →
+    SimVia s0 1 m s rs env (refCall k (.builtin name) args env rs)
 
 /-- a call of `force` -/
 abbrev FClaimG (k : Nat) : Prop := FClaimH k "force"
 
-/-- **A call by name**: callee by lookup; a closure object, a first-order builtin, or something
-that cannot be called. -/
+/-- **A call, the callee evaluated** to `fv` (by lookup or by a nested run): a closure object, a Go builtin, or
+something that cannot be called -/
+theorem simF_callV {k : Nat} (hA : FClaimA (k + 1)) (hU : FClaimU (k + 1)) (hG : ∀ name, hoB name → FClaimH k name)
+    {args : List Expr} (hargs : FaList args = true) {m : Nat → Nat} {s : St} {rs : Ref.St} {env : Nat}
+    {pre post : List Instr} {ins : Instr} {s0 : St} {M0 : Nat} {fv : Val} (hrel : RelF m s rs env) (hat : At s0 pre ins post)
+    (hex : ∀ F, M0 ≤ F → (exec (F + 3) ins).run s0 = (callResolved (F + 2) fv args).run s) (hv : VOk m s rs fv) :
+    SimVia s0 1 m s rs env (refCall k (trf m fv) args env rs) := by
+  cases fv with
+  | fn vid => exact simF_call_fn hA hU hargs hrel hat hex hv.fn
+  | builtin name =>
+    rcases hv.builtin with hn | hn
+    · exact simF_call_builtin hA hn hargs hrel hat hex
+    · exact hG name hn args hargs m s rs env pre post ins s0 M0 hrel hat hex
+  | arr r => exact simF_call_arr hA hargs hrel hat hex
+  | nil => exact simF_call_other hrel hat hex hv (fun _ e => by cases e) (fun _ e => by cases e) (fun _ e => by cases e)
+  | bool b => exact simF_call_other hrel hat hex hv (fun _ e => by cases e) (fun _ e => by cases e) (fun _ e => by cases e)
+  | int v => exact simF_call_other hrel hat hex hv (fun _ e => by cases e) (fun _ e => by cases e) (fun _ e => by cases e)
+  | str v => exact simF_call_other hrel hat hex hv (fun _ e => by cases e) (fun _ e => by cases e) (fun _ e => by cases e)
+  | pair a b => exact simF_call_other hrel hat hex hv (fun _ e => by cases e) (fun _ e => by cases e) (fun _ e => by cases e)
+  | lazy v => exact simF_call_other hrel hat hex hv (fun _ e => by cases e) (fun _ e => by cases e) (fun _ e => by cases e)
+  | mark v => exact simF_call_other hrel hat hex hv (fun _ e => by cases e) (fun _ e => by cases e) (fun _ e => by cases e)
+  | sym v => exact simF_call_other hrel hat hex hv (fun _ e => by cases e) (fun _ e => by cases e) (fun _ e => by cases e)
+
+/-- **A call by name**: callee by lookup -/
 theorem simF_call {k : Nat} (hA : FClaimA (k + 1)) (hU : FClaimU (k + 1)) (hG : ∀ name, hoB name → FClaimH k name) {h : String} (hh : okSym h = true)
     {args : List Expr} (hargs : FaList args = true) {m : Nat → Nat} {s : St} {rs : Ref.St} {env : Nat}
     {pre post : List Instr} (hrel : RelF m s rs env) (hseg : Seg s pre [.callExpr (.sym h) args] post) :
@@ -1175,21 +1209,68 @@ theorem simF_call {k : Nat} (hA : FClaimA (k + 1)) (hU : FClaimU (k + 1)) (hG : 
     rw [← hlook]
     simp only [Option.map_some, trp2]
     have hv : VOk m s rs fv := (hrel.vok i h fv (lexLookup_sound hl)).ok hh
-    cases fv with
-    | fn vid => exact simF_call_fn hA hU hargs hrel hseg hl hv.fn
-    | builtin name =>
-      rcases hv.builtin with hn | hn
-      · exact simF_call_builtin hA hn hargs hrel hseg hl
-      · exact hG name hn h args hargs m s rs env pre post i hrel hseg hl
-    | arr r => exact simF_call_arr hA hargs hrel hseg hl
-    | nil => exact simF_call_other hrel hseg hl hv (fun _ e => by cases e) (fun _ e => by cases e) (fun _ e => by cases e)
-    | bool b => exact simF_call_other hrel hseg hl hv (fun _ e => by cases e) (fun _ e => by cases e) (fun _ e => by cases e)
-    | int v => exact simF_call_other hrel hseg hl hv (fun _ e => by cases e) (fun _ e => by cases e) (fun _ e => by cases e)
-    | str v => exact simF_call_other hrel hseg hl hv (fun _ e => by cases e) (fun _ e => by cases e) (fun _ e => by cases e)
-    | pair a b => exact simF_call_other hrel hseg hl hv (fun _ e => by cases e) (fun _ e => by cases e) (fun _ e => by cases e)
-    | lazy v => exact simF_call_other hrel hseg hl hv (fun _ e => by cases e) (fun _ e => by cases e) (fun _ e => by cases e)
-    | mark v => exact simF_call_other hrel hseg hl hv (fun _ e => by cases e) (fun _ e => by cases e) (fun _ e => by cases e)
-    | sym v => exact simF_call_other hrel hseg hl hv (fun _ e => by cases e) (fun _ e => by cases e) (fun _ e => by cases e)
+    exact simF_callV (M0 := 0) hA hU hG hargs hrel hseg.head (fun F _ => exec_callExpr_sym F h args s i fv hl) hv
+
+/-- what `Ref.eval` does with a call: the callee first -/
+theorem ref_eval_call (k : Nat) (f : Expr) (args : List Expr) (env : Nat) (rs : Ref.St) :
+    Ref.eval (k + 2) (.call f args) env rs =
+      match Ref.eval (k + 1) f env rs with
+      | .ok fv s => refCall k fv args env s
+      | r => r := by
+  rw [Ref.eval]
+  unfold refCall
+  cases Ref.eval (k + 1) f env rs <;> rfl
+
+theorem SimVia.toF {ins : Instr} {s0 s1 : St} {m m1 : Nat → Nat} {rs rs1 : Ref.St} {env : Nat} {res : Ref.R Val}
+    (h : SimVia s0 1 m1 s1 rs1 env res) (hm : MExt s0 m m1) (ext : RExt rs rs1) (fr : FrameF s0 s1)
+    (hd : s1.data = s0.data) (hp : s1.pc = s0.pc) (hcur : s0.curfunc < s0.fns.length) : SimF [ins] m s0 rs env res := by
+  cases res with
+  | ok v' rs' =>
+    obtain ⟨s', m', v, r, l, hv, rel, hm', ext', fr', hcl⟩ := h
+    exact ⟨s', m', v, r, ⟨l.fn.trans (by rw [fr.curfunc]; exact fr.fns _ hcur), by rw [l.pc, hp]; rfl, by rw [l.data, hd]⟩, hv, rel,
+      hm.trans hm' fr.fnsLen, ext.trans ext', fr.trans fr', hcl⟩
+  | err rs' => exact h
+  | timeout => trivial
+  | brk l rs' => exact h
+  | cont l rs' => exact h
+
+/-- **A call with a computed callee** `(e a1 … an)`: the callee is evaluated in a nested run (as an operand), then as a
+call by name -/
+theorem simF_callE {k : Nat} (hE : FClaimE (k + 1)) (hA : FClaimA (k + 1)) (hU : FClaimU (k + 1))
+    (hG : ∀ name, hoB name → FClaimH k name) {e : Expr} (he : Ff false "" e = true)
+    {args : List Expr} (hargs : FaList args = true) {m : Nat → Nat} {s : St} {rs : Ref.St} {env : Nat}
+    {pre post : List Instr} (hrel : RelF m s rs env) (hseg : Seg s pre [.callExpr e args] post) :
+    SimF [.callExpr e args] m s rs env (Ref.eval (k + 2) (.call e args) env rs) := by
+  rw [ref_eval_call]
+  have hev := evalCallExpr_simF hE e he hrel
+  obtain ⟨_, _, hfc⟩ := hrel.ctx
+  have hunf : ∀ F, (exec (F + 1) (.callExpr e args)).run s =
+      match (evalCallExpr F e).run s with
+      | (.ok fv, s1) => (callResolved F fv args).run s1
+      | (.error flt, s1) => (.error flt, s1) := by
+    intro F
+    rw [exec]
+    simp only [run_bind]
+    rcases (evalCallExpr F e).run s with ⟨r1, s1⟩
+    cases r1 <;> rfl
+  cases h1 : Ref.eval (k + 1) e env rs with
+  | ok fv' rs1 =>
+    rw [h1] at hev
+    obtain ⟨M1, s1, m1, fv, hM1, hd1, hp1, hv1, rel1, hm1, ext1, fr1, hcl1⟩ := hev
+    simp only
+    subst hv1
+    refine (simF_callV (M0 := M1) hA hU hG hargs rel1 hseg.head (fun F hF => ?_) hcl1).toF hm1 ext1 fr1 hd1 hp1 hfc.lt
+    rw [hunf (F + 2), hM1 (F + 2) (by omega)]
+  | err rs1 =>
+    rw [h1] at hev
+    obtain ⟨M1, hM1⟩ := hev
+    simp only
+    refine FailsX.step hseg.head (M1 + 1) (fun f hf => ?_)
+    obtain ⟨se, hse, htr⟩ := hM1 f (by omega)
+    exact ⟨se, by rw [hunf f, hse], htr⟩
+  | timeout => trivial
+  | brk l rs1 => rw [h1] at hev; exact hev.elim
+  | cont l rs1 => rw [h1] at hev; exact hev.elim
 
 /-! ## The inductive steps -/
 
